@@ -51,7 +51,7 @@ const c39ForeignFinalizer = "example.com/other-finalizer"
 var c39GR = schema.GroupResource{Group: "projectcalico.org", Resource: "ippools"}
 
 type c39Ev struct {
-	Op   string // create disable enable delete unforeign blockadd blockdel syncpools syncblocks reconcile syncreconcile reconcile-ipamfail
+	Op   string // create disable enable delete unforeign blockadd blockdel syncpools syncblocks reconcile syncreconcile syncreconcile-failstatus syncreconcile-failfinalizer reconcile-ipamfail
 	Name string
 }
 
@@ -67,6 +67,9 @@ type c39Universe struct {
 	Blocks []string
 	// IPAMFail adds a reconcile variant whose ReleasePoolAffinities fails
 	IPAMFail bool
+	// FaultBudget: how many reconciles of one history may have an API write refused (only refusals that
+	// actually hit a write count)
+	FaultBudget int
 	// SameTime lists pool names whose creation does not advance the clock (equal creationTimestamps)
 	SameTime map[string]bool
 }
@@ -117,6 +120,11 @@ type c39State struct {
 	bad    []hbfs.Fail
 	lastStale bool
 	lastStaleOverlap bool
+	// one-shot fault: the next write of this pool on this subresource ("status" or "" = main resource) is refused
+	failName, failSub string
+	failArmed, failFired bool
+	faultsUsed           int
+	lastFaultOverlap     bool
 	staleD int // (d)-shaped anomalies seen on reconciles with a stale block cache (informational)
 	writes int
 }
@@ -132,6 +140,10 @@ func c39New(u *c39Universe) *c39State {
 			panic(fmt.Sprintf("c39: controller issued an unmodelled API call %s %s/%s", a.GetVerb(), a.GetResource().Resource, a.GetSubresource()))
 		}
 		obj := ua.GetObject().(*v3.IPPool)
+		if s.failArmed && obj.Name == s.failName && a.GetSubresource() == s.failSub {
+			s.failArmed, s.failFired = false, true
+			return true, nil, apierrors.NewConflict(c39GR, obj.Name, fmt.Errorf("injected: the object has been modified"))
+		}
 		out, err := s.apiUpdate(obj, a.GetSubresource())
 		if err != nil {
 			return true, nil, err
@@ -330,16 +342,55 @@ func c39Names(m map[string]*v3.IPPool) []string {
 // reconcile runs the real reconcile() and evaluates the statement's clauses on the truth world.
 func (s *c39State) reconcile(ipamFail bool) {
 	freshP, freshB := s.poolsFresh(), s.blocksFresh()
-	s.lastStale, s.lastStaleOverlap = false, false
+	s.lastStale, s.lastStaleOverlap, s.lastFaultOverlap = false, false, false
 	before := s.snapshot()
 	wasActive := map[string]bool{}
 	for k, v := range s.wasActive {
 		wasActive[k] = v
 	}
+	cached := map[string]*v3.IPPool{}
+	for _, o := range s.poolIdx.List() {
+		p := o.(*v3.IPPool)
+		cached[p.Name] = p.DeepCopy()
+	}
 	s.ipam.fail = ipamFail
 	err := s.ctl.reconcile()
 	s.ipam.fail = false
+	s.failArmed = false
+	if s.failFired {
+		s.faultsUsed++
+	}
 	after := s.truth
+
+	// (c, safety form: whatever the caches looked like and whichever write failed) a pool that the controller
+	// itself saw as terminating and not disabled masks in that very pass: no overlapping pool may be switched
+	// to allocatable by it.
+	for _, tn := range c39Names(after) {
+		t, ct := after[tn], cached[tn]
+		if t.DeletionTimestamp == nil || ct == nil || ct.DeletionTimestamp == nil || ct.Spec.Disabled || t.Spec.Disabled {
+			continue
+		}
+		for _, qn := range c39Names(after) {
+			q := after[qn]
+			if qn != tn && c39Overlap(q.Spec.CIDR, t.Spec.CIDR) && c39CondTrue(q) && c39IPAMAllocatable(q) && !c39CondTrue(before[qn]) {
+				s.fail("terminating-pool-stopped-masking", "pool %s (%s) was switched to allocatable by a reconcile that saw the overlapping pool %s (%s) terminating: %s (fresh pool cache=%v, reconcile error=%v)", qn, q.Spec.CIDR, tn, t.Spec.CIDR, c39Show(after), freshP, err != nil)
+			}
+		}
+	}
+	// informational: a reconcile on a fresh pool cache in which a write was refused left two overlapping pools
+	// both Allocatable=True (the statement is silent on reconciles that did not complete; they are retried)
+	if freshP && err != nil {
+		ns := c39Names(after)
+		for i, n := range ns {
+			for _, m := range ns[i+1:] {
+				p, q := after[n], after[m]
+				if c39CondTrue(p) && c39CondTrue(q) && c39IPAMAllocatable(p) && c39IPAMAllocatable(q) && c39Overlap(p.Spec.CIDR, q.Spec.CIDR) &&
+					!(c39CondTrue(before[n]) && c39CondTrue(before[m])) {
+					s.lastFaultOverlap = true
+				}
+			}
+		}
+	}
 
 	// (d) an allocatable pool is not deleted while it still has address blocks
 	for _, n := range c39Names(before) {
@@ -445,6 +496,7 @@ func (s *c39State) blockList() []string {
 }
 
 func c39Apply(s *c39State, e c39Ev) {
+	s.failFired = false
 	switch e.Op {
 	case "create":
 		d := s.def(e.Name)
@@ -508,6 +560,15 @@ func c39Apply(s *c39State, e c39Ev) {
 		s.syncPools()
 		s.syncBlocks()
 		s.reconcile(false)
+	case "syncreconcile-failstatus", "syncreconcile-failfinalizer":
+		// reconcile on fresh caches during which the API server refuses the next status / finalizer write of one pool
+		s.syncPools()
+		s.syncBlocks()
+		s.failName, s.failSub, s.failArmed, s.failFired = e.Name, "", true, false
+		if e.Op == "syncreconcile-failstatus" {
+			s.failSub = "status"
+		}
+		s.reconcile(false)
 	default:
 		panic("bad op " + e.Op)
 	}
@@ -554,6 +615,11 @@ func c39Enabled(s *c39State, depth int) []c39Ev {
 	evs = append(evs, c39Ev{Op: "reconcile"})
 	if !fp || !fb {
 		evs = append(evs, c39Ev{Op: "syncreconcile"})
+	}
+	if s.faultsUsed < s.u.FaultBudget {
+		for _, n := range c39Names(s.truth) {
+			evs = append(evs, c39Ev{"syncreconcile-failstatus", n}, c39Ev{"syncreconcile-failfinalizer", n})
+		}
 	}
 	if s.u.IPAMFail {
 		for _, p := range s.truth {
@@ -662,7 +728,7 @@ func c39Key(s *c39State) string {
 		cb = append(cb, o.(*v3.IPAMBlock).Spec.CIDR)
 	}
 	sort.Strings(cb)
-	fmt.Fprintf(&sb, "%v|bad=%d", cb, len(s.bad))
+	fmt.Fprintf(&sb, "%v|bad=%d|faults=%d", cb, len(s.bad), s.faultsUsed)
 	if len(s.u.SameTime) > 0 {
 		// is the latest creation time still held by a live/cached object? (a same-time create would tie with it)
 		fmt.Fprintf(&sb, "|clocktop=%v", times[int64(100000+s.clock)])
@@ -681,6 +747,12 @@ func c39Spec(c *vk.Ctx, u *c39Universe, name string, depth int, tree bool, worke
 			if s.lastStale && len(hist) > 0 && strings.Contains(hist[len(hist)-1].Op, "reconcile") {
 				// informational: clause (d) shape on a reconcile whose block cache was stale
 				c.Add("info_release_with_block_unseen_by_stale_block_cache", 1)
+			}
+			if s.failFired && len(hist) > 0 && strings.HasPrefix(hist[len(hist)-1].Op, "syncreconcile-fail") {
+				c.Add("reconciles_with_a_refused_api_write", 1)
+			}
+			if s.lastFaultOverlap && len(hist) > 0 && strings.Contains(hist[len(hist)-1].Op, "reconcile") {
+				c.Add("info_refused_write_reconcile_left_two_overlapping_allocatable_pools", 1)
 			}
 			if s.lastStaleOverlap && len(hist) > 0 && strings.Contains(hist[len(hist)-1].Op, "reconcile") {
 				// informational: a reconcile on a stale pool cache made two overlapping pools allocatable at once
@@ -733,6 +805,7 @@ func TestVerif_C39(t *testing.T) {
 			Pools:  []c39PoolDef{{Name: "p24", CIDR: "10.0.0.0/24"}, {Name: "p25a", CIDR: "10.0.0.0/25"}, {Name: "p25b", CIDR: "10.0.0.128/25"}},
 			Blocks: []string{"10.0.0.0/26"},
 		}
+		quick.FaultBudget = c.Pick(1, 2)
 		full := &c39Universe{
 			Pools: []c39PoolDef{{Name: "p24", CIDR: "10.0.0.0/24"}, {Name: "p25a", CIDR: "10.0.0.0/25"}, {Name: "p25b", CIDR: "10.0.0.128/25"},
 				{Name: "a24twin", CIDR: "10.0.0.0/24"}, {Name: "q24", CIDR: "10.0.1.0/24"}, {Name: "f25a", CIDR: "10.0.0.0/25", Foreign: true}},
@@ -746,7 +819,10 @@ func TestVerif_C39(t *testing.T) {
 			IPAMFail: true,
 			SameTime: map[string]bool{"a24twin": true},
 		}
+		mid.FaultBudget = c.Pick(1, 2)
+		full.FaultBudget = 1
 		if rf := c.ReplayFile(); rf != "" {
+			quick.FaultBudget, mid.FaultBudget, full.FaultBudget = 9, 9, 9
 			var d struct {
 				Spec    string
 				History []string
@@ -776,11 +852,11 @@ func TestVerif_C39(t *testing.T) {
 		c.Sample(map[string]any{"history": []string{"create:p24", "syncreconcile", "create:p25a", "blockadd:10.0.0.0/26", "syncreconcile", "delete:p24", "syncreconcile", "blockdel:10.0.0.0/26", "syncreconcile", "syncreconcile"},
 			"meaning": "p24 becomes allocatable and gets the finalizer; p25a is masked (CIDROverlap); deleting p24 makes it terminating, it keeps masking p25a while the block exists; once the block is gone p24 is released and the following reconcile makes p25a allocatable"})
 		w := 6
-		hbfs.Explore(c, c39Spec(c, quick, "ippool-quick-graph", c.Pick(8, 11), false, w))
-		hbfs.Explore(c, c39Spec(c, mid, "ippool-mid-graph", c.Pick(7, 10), false, w))
+		hbfs.Explore(c, c39Spec(c, quick, "ippool-quick-graph", c.Pick(7, 9), false, w))
+		hbfs.Explore(c, c39Spec(c, mid, "ippool-mid-graph", c.Pick(6, 8), false, w))
 		hbfs.Explore(c, c39Spec(c, quick, "ippool-quick-tree", c.Pick(4, 5), true, w))
 		if c.Thorough() {
-			hbfs.Explore(c, c39Spec(c, full, "ippool-full-graph", 7, false, w))
+			hbfs.Explore(c, c39Spec(c, full, "ippool-full-graph", 6, false, w))
 		}
 	})
 }
